@@ -114,6 +114,8 @@ def random_spec(r: random.Random, idx: int) -> dict:
         spec["shared_problem"] = True
         spec["max_consults"] = 300
         spec["maystall"] = True
+    if spec["hibernation"] and spec["gsc"]["kind"] in ("SingularEvalLimit", "WeightedEvalLimit"):
+        spec["max_consults"] = 400          # may run into the stall of KF-C18-stall: do not waste time on it
     # sprout mechanism
     y = r.random()
     limit = r.choice([1, 2, 2, 3, 4])
@@ -292,14 +294,14 @@ def _run_in_subprocess(spec):
         path = f.name
     try:
         p = subprocess.run([sys.executable, "-W", "ignore", "-m", "harness.runner", path], env=env, capture_output=True,
-                           text=True, timeout=180)
+                           text=True, timeout=1800)
         if p.returncode != 0:
             return {"name": spec.get("name", ""), "status": "builderror", "info": p.stderr[-1500:], "events": [], "spec": spec}
         out = json.loads(p.stdout)
         out["spec"] = spec
         return out
     except subprocess.TimeoutExpired:
-        return {"name": spec.get("name", ""), "status": "timeout", "info": "subprocess run exceeded 180 s", "events": [], "spec": spec}
+        return {"name": spec.get("name", ""), "status": "timeout", "info": "subprocess run exceeded 1800 s", "events": [], "spec": spec}
     finally:
         os.unlink(path)
 
@@ -319,19 +321,20 @@ def _run_one(spec):
     from .runner import run_spec
     if spec.get("subprocess_hashseed") is not None:
         return _run_in_subprocess(spec)
-    signal.signal(signal.SIGALRM, _alarm)
-    signal.alarm(int(spec.get("timeout_s", 20)))
+    # CPU-time cap (not wall-clock: the verdict must not depend on the load of the machine)
+    signal.signal(signal.SIGPROF, _alarm)
+    signal.setitimer(signal.ITIMER_PROF, float(spec.get("cpu_cap_s", 150)))
     try:
         return run_spec(spec)
     except _Timeout:
-        return {"name": spec.get("name", ""), "status": "timeout", "info": "run exceeded its wall-clock cap",
+        return {"name": spec.get("name", ""), "status": "timeout", "info": "run exceeded its CPU-time cap",
                 "events": [], "spec": spec}
     except Exception as ex:  # noqa: BLE001  (building the configuration failed: machinery error)
         import traceback
         return {"name": spec.get("name", ""), "status": "builderror", "info": traceback.format_exc()[-1500:],
                 "events": [], "spec": spec}
     finally:
-        signal.alarm(0)
+        signal.setitimer(signal.ITIMER_PROF, 0)
 
 
 def run_specs(specs: list[dict], workers: int = 14, runner=_run_one) -> list[dict]:
